@@ -339,6 +339,14 @@ func (o Bool) Equal(right Object) bool {
 	if v, ok := right.(Uint); ok {
 		return bool((o && v == 1) || (!o && v == 0))
 	}
+
+	if v, ok := right.(Float); ok {
+		return bool((o && v == 1) || (!o && v == 0))
+	}
+
+	if v, ok := right.(Char); ok {
+		return bool((o && v == 1) || (!o && v == 0))
+	}
 	return false
 }
 
@@ -1191,6 +1199,15 @@ func (o Map) IndexGet(index Object) (Object, error) {
 
 // Equal implements Object interface.
 func (o Map) Equal(right Object) bool {
+	if sm, ok := right.(*SyncMap); ok {
+		if sm == nil {
+			return false
+		}
+		sm.mu.RLock()
+		defer sm.mu.RUnlock()
+		right = sm.Value
+	}
+
 	v, ok := right.(Map)
 	if !ok {
 		return false
@@ -1341,6 +1358,10 @@ func (o *SyncMap) IndexGet(index Object) (Object, error) {
 
 // Equal implements Object interface.
 func (o *SyncMap) Equal(right Object) bool {
+	if v, ok := right.(*SyncMap); ok && v == o {
+		return true
+	}
+
 	o.mu.RLock()
 	defer o.mu.RUnlock()
 
